@@ -179,7 +179,7 @@ func (e *Engine) evalSpec(env *SpecEnv, x *SExpr) Value {
 		case "-":
 			v := e.evalSpecTerm(env, x.Args[0])
 			if v.Sort.K == KF64 {
-				return app(SF64, "fp.neg", v)
+				return app(SF64, "f64.neg", v)
 			}
 			return Neg(v)
 		case "*":
@@ -558,28 +558,28 @@ func (e *Engine) specBinary(env *SpecEnv, x *SExpr) Value {
 	b := e.evalSpecTerm(env, x.Args[1])
 	if a.Sort.K == KF64 || b.Sort.K == KF64 {
 		if a.Sort.K == KInt {
-			a = T("((_ to_fp 11 53) RNE (to_real "+a.S+"))", SF64)
+			a = T("(i2f "+a.S+")", SF64)
 		}
 		if b.Sort.K == KInt {
-			b = T("((_ to_fp 11 53) RNE (to_real "+b.S+"))", SF64)
+			b = T("(i2f "+b.S+")", SF64)
 		}
 		switch x.Name {
 		case "<":
-			return app(SBool, "fp.lt", a, b)
+			return app(SBool, "f64.lt", a, b)
 		case "<=":
-			return app(SBool, "fp.leq", a, b)
+			return app(SBool, "f64.leq", a, b)
 		case ">":
-			return app(SBool, "fp.gt", a, b)
+			return app(SBool, "f64.gt", a, b)
 		case ">=":
-			return app(SBool, "fp.geq", a, b)
+			return app(SBool, "f64.geq", a, b)
 		case "+":
-			return rne("fp.add", a, b)
+			return app(SF64, "f64.add", a, b)
 		case "-":
-			return rne("fp.sub", a, b)
+			return app(SF64, "f64.sub", a, b)
 		case "*":
-			return rne("fp.mul", a, b)
+			return app(SF64, "f64.mul", a, b)
 		case "/":
-			return rne("fp.div", a, b)
+			return app(SF64, "f64.div", a, b)
 		}
 	}
 	if a.Sort.K == KStr {
@@ -683,13 +683,13 @@ func (e *Engine) specEq(env *SpecEnv, a, b Value) Term {
 	if ta, ok := a.(Term); ok {
 		if tb, ok := b.(Term); ok {
 			if ta.Sort.K == KF64 && tb.Sort.K == KInt {
-				tb = T("((_ to_fp 11 53) RNE (to_real "+tb.S+"))", SF64)
+				tb = T("(i2f "+tb.S+")", SF64)
 			}
 			if tb.Sort.K == KF64 && ta.Sort.K == KInt {
-				ta = T("((_ to_fp 11 53) RNE (to_real "+ta.S+"))", SF64)
+				ta = T("(i2f "+ta.S+")", SF64)
 			}
 			if ta.Sort.K == KF64 {
-				return app(SBool, "fp.eq", ta, tb)
+				return app(SBool, "f64.eq", ta, tb)
 			}
 			if !ta.Sort.Eq(tb.Sort) {
 				sfail("comparison of different sorts: %s : %s vs %s : %s", ta.S, ta.Sort, tb.S, tb.Sort)
